@@ -73,7 +73,7 @@ func slotMissing(s *slip.Scope, obj slip.Object, name slip.Symbol, op string, de
 		slip.CellPanic(s, depth, name, panicFormat, op, name, obj)
 	}
 	class := slip.FindClass(string(obj.Hierarchy()[0]))
-	if class.Metaclass() == slip.Symbol("built-in-class") {
+	if class == nil || class.Metaclass() == slip.Symbol("built-in-class") {
 		slip.CellPanic(s, depth, name, panicFormat, op, name, obj)
 	}
 	args := slip.List{
